@@ -1,9 +1,166 @@
 /-
-  Helper lemmas for C05 (winding order / orient).
+  Helper lemmas for C05 (winding order / orient): the lexicographic order, `least_index`,
+  the pivot triple.
 -/
 import GeoModel.Winding
+import Mathlib.Tactic.Linarith
 
 namespace Geo.Proofs.C05L
 open Geo
+
+theorem lexLt_iff (a b : Pt) : lexLt a b = true ↔ a.x < b.x ∨ (a.x = b.x ∧ a.y < b.y) := by
+  simp [lexLt]
+
+theorem lexLt_irrefl (a : Pt) : lexLt a a = false := by
+  rw [Bool.eq_false_iff]; intro h; rw [lexLt_iff] at h
+  rcases h with h | ⟨_, h⟩ <;> exact absurd h (lt_irrefl _)
+
+theorem lexLt_trans {a b c : Pt} (h1 : lexLt a b = true) (h2 : lexLt b c = true) : lexLt a c = true := by
+  rw [lexLt_iff] at *
+  rcases h1 with h1 | ⟨e1, h1⟩ <;> rcases h2 with h2 | ⟨e2, h2⟩
+  · left; linarith
+  · left; linarith
+  · left; linarith
+  · right; exact ⟨by linarith, by linarith⟩
+
+/-- `a < b` and `¬ c < b` (i.e. `b ≤ c`) give `a < c` -/
+theorem lexLt_of_lt_of_not_lt {a b c : Pt} (h1 : lexLt a b = true) (h2 : lexLt c b = false) :
+    lexLt a c = true := by
+  rw [Bool.eq_false_iff, Ne, lexLt_iff] at h2
+  rw [lexLt_iff] at h1 ⊢
+  have h2' : ¬ (c.x < b.x) ∧ ¬ (c.x = b.x ∧ c.y < b.y) := by
+    constructor
+    · intro h; exact h2 (Or.inl h)
+    · intro h; exact h2 (Or.inr h)
+  obtain ⟨hx, hy⟩ := h2'
+  have hx' : b.x ≤ c.x := not_lt.1 hx
+  rcases h1 with h1 | ⟨e1, h1⟩
+  · left; linarith
+  · rcases lt_or_eq_of_le hx' with h | h
+    · left; linarith
+    · right
+      refine ⟨by linarith, ?_⟩
+      have : ¬ c.y < b.y := fun hh => hy ⟨h.symm, hh⟩
+      have := not_lt.1 this
+      linarith
+
+/-- what `least_index` guarantees: the returned point sits at the returned index and nothing in
+the list is lexicographically smaller. -/
+theorem leastIndexGo_spec (rest pre : List Pt) (j bi : Nat) (bp : Pt)
+    (hj : pre.length = j) (hb : pre[bi]? = some bp) (hmin : ∀ q ∈ pre, lexLt q bp = false) :
+    let res := leastIndexGo rest j bi bp
+    (pre ++ rest)[res.1]? = some res.2 ∧ ∀ q ∈ pre ++ rest, lexLt q res.2 = false := by
+  induction rest generalizing pre j bi bp with
+  | nil => simpa [leastIndexGo] using ⟨hb, hmin⟩
+  | cons p t ih =>
+    simp only [leastIndexGo]
+    by_cases hlt : lexLt p bp = true
+    · rw [if_pos hlt]
+      have := ih (pre ++ [p]) (j + 1) j p (by simp [hj]) (by simp [← hj]) (by
+        intro q hq
+        rcases List.mem_append.1 hq with hq | hq
+        · -- q ≥ bp > p
+          cases hqp : lexLt q p with
+          | false => rfl
+          | true => have := lexLt_trans hqp hlt; rw [hmin q hq] at this; exact absurd this (by decide)
+        · have : q = p := by simpa using hq
+          subst this; exact lexLt_irrefl q)
+      simpa using this
+    · rw [if_neg hlt]
+      have hlt' : lexLt p bp = false := by simpa using hlt
+      have := ih (pre ++ [p]) (j + 1) bi bp (by simp [hj]) (by
+        have hbi : bi < pre.length := by
+          rcases List.getElem?_eq_some_iff.1 hb with ⟨h, _⟩; exact h
+        rw [List.getElem?_append_left hbi]; exact hb) (by
+        intro q hq
+        rcases List.mem_append.1 hq with hq | hq
+        · exact hmin q hq
+        · have : q = p := by simpa using hq
+          subst this; exact hlt')
+      simpa using this
+
+theorem leastIndex_spec {r : List Pt} {i : Nat} {p : Pt} (h : leastIndex r = some (i, p)) :
+    r[i]? = some p ∧ ∀ q ∈ r, lexLt q p = false := by
+  cases r with
+  | nil => simp [leastIndex] at h
+  | cons a t =>
+    simp only [leastIndex, Option.some.injEq] at h
+    have := leastIndexGo_spec t [a] 1 0 a rfl rfl (by
+      intro q hq
+      have : q = a := by simpa using hq
+      subst this; exact lexLt_irrefl q)
+    simp only [h] at this
+    simpa using this
+
+theorem leastIndex_isSome {r : List Pt} (h : r ≠ []) : ∃ i p, leastIndex r = some (i, p) := by
+  cases r with
+  | nil => exact absurd rfl h
+  | cons a t => exact ⟨_, _, rfl⟩
+
+/-- the list splits at the pivot index -/
+theorem split_at {r : List Pt} {i : Nat} {p : Pt} (h : r[i]? = some p) :
+    r = r.take i ++ p :: r.drop (i + 1) := by
+  rcases List.getElem?_eq_some_iff.1 h with ⟨hi, hp⟩
+  rw [← hp]
+  exact (List.take_append_drop i r).symm.trans (by rw [List.drop_eq_getElem_cons hi])
+
+theorem mem_cyc {r : List Pt} {i : Nat} {p : Pt} (h : r[i]? = some p) (q : Pt) :
+    q ∈ r ↔ q = p ∨ q ∈ cycAfter r i := by
+  unfold cycAfter
+  conv_lhs => rw [split_at h]
+  simp only [List.mem_append, List.mem_cons]
+  tauto
+
+theorem mem_cycBefore (r : List Pt) (i : Nat) (q : Pt) : q ∈ cycBefore r i ↔ q ∈ cycAfter r i := by
+  unfold cycBefore cycAfter
+  simp only [List.mem_append, List.mem_reverse]
+  tauto
+
+/-- unfolding of `pivotTriple`, success case -/
+theorem pivotTriple_some_iff (r : List Pt) (pv p nx : Pt) :
+    pivotTriple r = some (pv, p, nx) ↔
+      ∃ i, leastIndex r = some (i, p) ∧ (cycAfter r i).find? (· ≠ p) = some nx ∧
+        (cycBefore r i).find? (· ≠ p) = some pv := by
+  unfold pivotTriple
+  split
+  · rename_i hl
+    constructor
+    · intro h; cases h
+    · rintro ⟨i, hl', _⟩; rw [hl] at hl'; cases hl'
+  · rename_i i p0 hl
+    split
+    · rename_i nx0 pv0 hn hv
+      constructor
+      · intro h
+        simp only [Option.some.injEq, Prod.mk.injEq] at h
+        obtain ⟨rfl, rfl, rfl⟩ := h
+        exact ⟨i, hl, hn, hv⟩
+      · rintro ⟨i', hl', hn', hv'⟩
+        rw [hl] at hl'
+        simp only [Option.some.injEq, Prod.mk.injEq] at hl'
+        obtain ⟨rfl, rfl⟩ := hl'
+        rw [hn] at hn'; rw [hv] at hv'
+        cases hn'; cases hv'; rfl
+    · rename_i hno
+      constructor
+      · intro h; cases h
+      · rintro ⟨i', hl', hn', hv'⟩
+        rw [hl] at hl'
+        simp only [Option.some.injEq, Prod.mk.injEq] at hl'
+        obtain ⟨rfl, rfl⟩ := hl'
+        exact absurd hv' (hno _ _ hn')
+
+/-- unfolding of `pivotTriple`, failure case -/
+theorem pivotTriple_none_cases {r : List Pt} (h : pivotTriple r = none) {i : Nat} {p : Pt}
+    (hl : leastIndex r = some (i, p)) :
+    (cycAfter r i).find? (· ≠ p) = none ∨ (cycBefore r i).find? (· ≠ p) = none := by
+  cases hn : (cycAfter r i).find? (· ≠ p) with
+  | none => exact Or.inl rfl
+  | some nx =>
+    cases hv : (cycBefore r i).find? (· ≠ p) with
+    | none => exact Or.inr rfl
+    | some pv =>
+      have := (pivotTriple_some_iff r pv p nx).2 ⟨i, hl, hn, hv⟩
+      rw [h] at this; cases this
 
 end Geo.Proofs.C05L
